@@ -13,6 +13,7 @@ import PyFatModel.Model.DirBytes
 import PyFatModel.Model.Names
 import PyFatModel.Model.FatIO
 import PyFatModel.Model.Crash
+import PyFatModel.Model.Fs
 
 open Model Model.Hex
 
@@ -24,6 +25,7 @@ structure CpInfo where
 structure DState where
   cps : List (String × Sfn.CodePage) := []
   cpi : List (String × CpInfo) := []
+  fs : Option (Fs.Vol × Fs.St × Fs.Spec) := none
 
 /-- "c:u.u;c:u" → association list -/
 def parseMap (s : String) : Option (List (Nat × List Nat)) :=
@@ -353,6 +355,88 @@ def crashCmd (args : List String) : String :=
     | _, _, _, _, _ => "bad-op"
   | _ => "bad-op"
 
+/-! ## `fs`: a filesystem-model session (Model.Fs) -/
+
+def sparse (fat : List Nat) : String :=
+  let rec go (i : Nat) : List Nat → List String → List String
+    | [], acc => acc.reverse
+    | x :: xs, acc => go (i + 1) xs (if x ≠ 0 ∧ i ≥ 2 then s!"{i}:{x}" :: acc else acc)
+  let l := go 0 fat []
+  if l.isEmpty then "-" else ",".intercalate l
+
+def showNode (n : Fs.Node) : String :=
+  s!"{showNatList n.path}/{n.parent}/{n.key}/{if n.isDir then 1 else 0}/{showNatList n.chain}/{n.size}/{n.slots}"
+
+def showDEnt (e : Fs.DEnt) : String :=
+  s!"{e.parent}/{e.key}/{if e.isDir then 1 else 0}/{e.clus}/{e.size}/{e.slots}"
+
+def showErr : Fs.Err → String
+  | .notFound => "ResourceNotFound"
+  | .fileExpected => "FileExpected"
+  | .dirExpected => "DirectoryExpected"
+  | .dirExists => "DirectoryExists"
+  | .notEmpty => "DirectoryNotEmpty"
+  | .removeRoot => "RemoveRootError"
+  | .noSpace => "PyFAT:28"
+  | .eio => "PyFAT:5"
+
+def showRes : Fs.Res → String
+  | .ok b => s!"ok {b}"
+  | .err e => "err " ++ showErr e
+
+def joinOr (l : List String) : String := if l.isEmpty then "-" else "|".intercalate l
+
+def fsDump (s : Fs.St) : String :=
+  s!"ok hint={s.hint} len={s.fat.length} fat={sparse s.fat} root={showNatList s.rootChain} nodes={joinOr (s.nodes.map showNode)} dfat={sparse s.dfat} dlen={s.dfat.length} disk={joinOr (s.disk.map showDEnt)}"
+
+def parseOp (args : List String) : Option Fs.Op :=
+  match args with
+  | ["create", p, sl, w] => do some (.create (← parseNatList p) (← sl.toNat?) (w == "1"))
+  | ["makedir", p, sl] => do some (.makedir (← parseNatList p) (← sl.toNat?))
+  | ["remove", p] => do some (.remove (← parseNatList p))
+  | ["removedir", p] => do some (.removedir (← parseNatList p))
+  | ["fwrite", p, pos, n] => do some (.fwrite (← parseNatList p) (← pos.toNat?) (← n.toNat?))
+  | ["ftrunc", p, m] => do some (.ftrunc (← parseNatList p) (← m.toNat?))
+  | _ => none
+
+def fsCmd (st : DState) (args : List String) : DState × String :=
+  match args with
+  | "init" :: rest =>
+    match (kv rest "ty").bind String.toNat?, (kv rest "bound").bind String.toNat?, (kv rest "bpc").bind String.toNat?,
+          kv rest "fixed", (kv rest "rootcap").bind String.toNat?, (kv rest "rootbase").bind String.toNat?,
+          (kv rest "hint").bind String.toNat?, (kv rest "root").bind parseNatList, (kv rest "fat").bind parseNatList with
+    | some ty, some bound, some bpc, some fixed, some rootcap, some rootbase, some hint, some root, some fat =>
+      let v : Fs.Vol := ⟨Alloc.params ty, bound, bpc, fixed == "1", rootcap, rootbase⟩
+      let s : Fs.St := ⟨fat, hint, root, [], fat, []⟩
+      ({ st with fs := some (v, s, []) }, "ok")
+    | _, _, _, _, _, _, _, _, _ => (st, "bad-op")
+  | ["node", p, parent, key, isdir, chain, size, slots] =>
+    match st.fs, parseNatList p, parent.toNat?, key.toNat?, parseNatList chain, size.toNat?, slots.toNat? with
+    | some (v, s, t), some p, some parent, some key, some chain, some size, some slots =>
+      let n : Fs.Node := ⟨p, parent, key, isdir == "1", chain, size, slots⟩
+      ({ st with fs := some (v, { s with nodes := s.nodes ++ [n], disk := s.disk ++ [n.dent] }, t ++ [⟨p, isdir == "1", size⟩]) }, "ok")
+    | _, _, _, _, _, _, _ => (st, "bad-op")
+  | "op" :: rest =>
+    match st.fs, parseOp rest with
+    | some (v, s, t), some op =>
+      let (s', r) := Fs.step v s op
+      let (t', r') := Fs.specStep t op
+      -- the reference filesystem follows the implementation when that runs out of space
+      let t'' := if r = .err .noSpace then t else t'
+      ({ st with fs := some (v, s', t'') }, showRes r ++ " spec=" ++ showRes r')
+    | _, _ => (st, "bad-op")
+  | ["spec" ] =>
+    match st.fs with
+    | some (_, s, t) =>
+      let sh := fun (l : Fs.Spec) => joinOr (l.map fun e => s!"{showNatList e.path}/{if e.isDir then 1 else 0}/{e.size}")
+      (st, "ok abs=" ++ sh (Fs.abs s) ++ " spec=" ++ sh t)
+    | none => (st, "bad-op")
+  | ["dump"] =>
+    match st.fs with
+    | some (_, s, _) => (st, fsDump s)
+    | none => (st, "bad-op")
+  | _ => (st, "bad-op")
+
 def step (st : DState) (line : String) : DState × String :=
   match (line.trimAscii.toString.splitOn " ").filter (· ≠ "") with
   | "codec" :: args => codec st args
@@ -361,6 +445,7 @@ def step (st : DState) (line : String) : DState × String :=
   | ["cp", name, decs, spaces, upper] => defCp st name decs spaces upper
   | "name" :: args => (st, names st args)
   | "crash" :: args => (st, crashCmd args)
+  | "fs" :: args => fsCmd st args
   | ["ping"] => (st, "ok pong")
   | [] => (st, "")
   | _ => (st, "bad-op")
